@@ -162,3 +162,12 @@ Example c10_ex_buffered_run :
   [(OUnit, false); (OItems [IRow [VI 1]; IRow [VI 2]; IRow [VI 3]], false); (OUnit, false);
    (OItem (IScalar (VI 4)), false); (OItems [IScalar (VI 5)], false)]%Z.
 Proof. vm_compute; reflexivity. Qed.
+(* outside the property: a size-less fetchmany() without yield_per returns the strategy's default chunk *)
+Example c10_ex_sizeless_chunk_is_strategy_specific :
+  run_impl StDirect 1 [[VI 1]; [VI 2]; [VI 3]] [FetchMany None] = [(OItems [IRow [VI 1]], false)] /\
+  run_impl (StBuffered 5) 1 [[VI 1]; [VI 2]; [VI 3]] [FetchMany None] =
+    [(OItems [IRow [VI 1]; IRow [VI 2]; IRow [VI 3]], false)] /\
+  run_impl StDirect 1 [[VI 1]; [VI 1]; [VI 3]] [Unique KRow; FetchMany None] = [(OUnit, false); (OItems [IRow [VI 1]], false)] /\
+  run_impl StDirect 1 [[VI 1]; [VI 2]; [VI 3]] [YieldPer 2; FetchMany None] =
+    [(OUnit, false); (OItems [IRow [VI 1]; IRow [VI 2]], false)].
+Proof. exact sizeless_chunk_is_strategy_specific. Qed.
